@@ -583,6 +583,18 @@ func (m *Machine) appendOp(args []Val, cc *ssa.CallCommon) Val {
 		doff = CI(64, 0)
 	} else {
 		out.Len = CI(64, nl)
+		// append within the spare capacity writes into the backing array the original slice shares: if that
+		// array existed before the traced operation began, this is a write to shared state (two goroutines
+		// appending to the same base slice race on the element slot)
+		if m.trace != nil && sl.C > 0 && m.inCodeUnderTest() {
+			if c := out.A.E[doff.C+dl.C]; c.Epoch < m.trace.epoch {
+				et := "element"
+				if cc != nil {
+					et = cc.Args[0].Type().String()
+				}
+				m.trace.add(m, "backing array of a shared "+et+" (append within capacity)", true)
+			}
+		}
 	}
 	for i := uint64(0); i < sl.C; i++ {
 		m.assignInto(out.A.E[doff.C+dl.C+i], m.copyVal(src.A.E[soff.C+i].V))
@@ -736,4 +748,20 @@ func nextSliceCap(newLen, oldCap uint64) uint64 {
 		}
 	}
 	return newcap
+}
+
+// inCodeUnderTest: the innermost active function is declared by the module under test (not by a harness
+// file or a runtime model).
+func (m *Machine) inCodeUnderTest() bool {
+	if len(m.frames) == 0 {
+		return false
+	}
+	fn := m.frames[len(m.frames)-1].fn
+	for fn.Parent() != nil {
+		fn = fn.Parent()
+	}
+	if o := fn.Object(); o != nil {
+		return m.underTest(o)
+	}
+	return false
 }
